@@ -341,9 +341,8 @@ def r02_1(ctx: Ctx):
             img_t = None
             if pne is not None:
                 a0 = pne.d['args'][0] if pne.d['args'] else pne.d['kwargs'].get('floatVariables')
-                ce = C.call_event_of_result(p, a0)
-                if ce is not None and any(isinstance(c, FuncInfo) and c.qualname == gi.qualname
-                                          for c in ce.d['callees']):
+                ce = C.image_call_of(p, a0, gi)
+                if ce is not None and ce.d['args']:
                     img_t = ce.d['args'][0]
             ts[key_of(ne.d['result'])] = (t, img_t, ne)
         if not ctx.check(key_of(item) in ts, rid, sd.short, loc, 'the evaluated seed item is built in the routine',
@@ -583,7 +582,7 @@ def r02_6(ctx: Ctx):
     gb = q.lookup('GetBestItem')
     n = 0
     for p in C.normal_paths(ex.explore(gb)):
-        ce = C.call_event_of_result(p, p.value)
+        ce = C.pop_event_of(p, p.value)
         n += 1
         ok = ce is not None and ce.d['name'] == 'popfirst'
         ctx.check(ok, rid, gb.short, gb.loc(), 'GetBestItem returns DEPQ.popfirst() (the maximal priority)',
@@ -761,8 +760,8 @@ def r02_8_selection(ctx: Ctx):
             pne = C.new_event_of(p, pt)
             img = None
             if pne is not None and pne.d['args']:
-                ie = C.call_event_of_result(p, pne.d['args'][0])
-                if ie is not None and gi in ie.d['callees']:
+                ie = C.image_call_of(p, pne.d['args'][0], gi)
+                if ie is not None and ie.d['args']:
                     img = ie.d['args'][0]
             okn = xe is not None and npr in xe.d['callees'] and bool(pe) and \
                 key_of(xe.d['args'][0]) == key_of(pe[0].d['result']) and img is not None and key_of(img) == key_of(x)
